@@ -38,7 +38,7 @@ if not blocks:
             if cur:
                 blocks.append("\n".join(cur) + "\n")
             cur = []
-cmdstart = re.compile(r"^\s*(cd|mkdir|cp|git|cargo|RUST_BACKTRACE|CARGO_NET_OFFLINE|rm|echo|for|export|\(cd)\b")
+cmdstart = re.compile(r"^\s*((cd|mkdir|cp|git|cargo|RUST_BACKTRACE|CARGO_NET_OFFLINE|rm|echo|for|export|bash|sh)\b|[A-Z][A-Z_]*=|\(cd\b)")
 script = ["set -x", "export CARGO_NET_OFFLINE=true RUST_BACKTRACE=0"]
 n = 0
 for b in blocks:
